@@ -1,36 +1,56 @@
 (** C13 -- lemmas, part e: character-data offset laws and "an exception leaves the heap unchanged" for the
     operations that check before they mutate. *)
-From Coq Require Import NArith List Bool Arith Lia.
+From Coq Require Import NArith List Bool Arith Lia ZArith ZifyN ZifyNat.
 From XV Require Import Base.XDefs Gen.GenKidOK C13.Ops13 C13.Spec13 C13.Model13 C13.Abs13 C13.Proofs13b.
 Import ListNotations.
 
+Local Open Scope N_scope.
+
 Lemma cd_insert_index : forall h n off s, n_ro (nd h n) = false ->
-  (snd (cd_insert h n off s) = RErr INDEX_SIZE <-> length (n_val (nd h n)) < off).
+  (snd (cd_insert h n off s) = RErr INDEX_SIZE <-> dlen h n < off).
 Proof.
-  intros h n off s R. unfold cd_insert. rewrite R. destruct (Nat.ltb_spec (length (n_val (nd h n))) off); cbn; split; intros H0; try lia; try reflexivity; discriminate.
+  intros h n off s R. unfold cd_insert. rewrite R. destruct (N.ltb_spec (dlen h n) off); cbn; split; intros H0; try lia; try reflexivity; discriminate.
 Qed.
 Lemma cd_delete_index : forall h n off cnt, n_ro (nd h n) = false ->
-  (snd (cd_delete h n off cnt) = RErr INDEX_SIZE <-> length (n_val (nd h n)) < off).
+  (snd (cd_delete h n off cnt) = RErr INDEX_SIZE <-> dlen h n < off).
 Proof.
-  intros h n off cnt R. unfold cd_delete. rewrite R. destruct (Nat.ltb_spec (length (n_val (nd h n))) off); cbn; split; intros H0; try lia; try reflexivity; discriminate.
+  intros h n off cnt R. unfold cd_delete. rewrite R. cbv zeta. destruct (N.ltb_spec (dlen h n) off); cbn [snd]; split; intros H0; try lia; try reflexivity; discriminate.
 Qed.
 Lemma cd_substring_index : forall h n off cnt,
-  (snd (cd_substring h n off cnt) = RErr INDEX_SIZE <-> length (n_val (nd h n)) < off).
+  (snd (cd_substring h n off cnt) = RErr INDEX_SIZE <-> dlen h n < off).
 Proof.
-  intros h n off cnt. unfold cd_substring. destruct (Nat.ltb_spec (length (n_val (nd h n))) off); cbn; split; intros H0; try lia; try reflexivity; discriminate.
+  intros h n off cnt. unfold cd_substring. cbv zeta. destruct (N.ltb_spec (dlen h n) off); cbn [snd]; split; intros H0; try lia; try reflexivity; discriminate.
 Qed.
 Lemma split_index : forall cf h n off, n_ro (nd h n) = false ->
-  length (n_val (nd h n)) < off -> split_text cf h n off = (h, RErr INDEX_SIZE).
+  dlen h n < off -> split_text cf h n off = (h, RErr INDEX_SIZE).
 Proof.
   intros cf h n off R L. unfold split_text. rewrite R. cbv zeta.
-  apply Nat.ltb_lt in L. rewrite L. reflexivity.
+  apply N.ltb_lt in L. rewrite L. reflexivity.
+Qed.
+
+(** deleteData: whatever the 64-bit count, exactly the units from [off] up to min(off + cnt, length) are removed: a
+    count that extends off the end (including one so large that off + cnt wraps around 2^64) means "to the end" *)
+Lemma cd_delete_value : forall h n off cnt, (n < length h)%nat -> n_ro (nd h n) = false -> off <= dlen h n -> cnt < w64 -> 2 * dlen h n < w64 ->
+  n_val (nd (fst (cd_delete h n off cnt)) n) =
+  firstn (N.to_nat off) (n_val (nd h n)) ++ skipn (N.to_nat (off + N.min cnt (dlen h n - off))) (n_val (nd h n)).
+Proof.
+  intros h n off cnt Hn R L Hc Hw. unfold cd_delete. rewrite R. cbv zeta.
+  destruct (N.ltb_spec (dlen h n) off); [lia|]. cbn [fst].
+  rewrite nd_upd_eq by assumption. cbn [n_val set_val]. f_equal. f_equal. f_equal. f_equal.
+  unfold wadd.
+  destruct (N.ltb_spec (dlen h n) cnt).
+  - rewrite N.mod_small by (unfold w64 in *; lia).
+    destruct (N.leb_spec (dlen h n) (off + dlen h n)); lia.
+  - rewrite N.mod_small by (unfold w64 in *; lia).
+    destruct (N.leb_spec (dlen h n) (off + cnt)); lia.
 Qed.
 
 (** insertData splices the string in at the offset *)
-Lemma cd_insert_value : forall h n off s, n < length h -> n_ro (nd h n) = false -> off <= length (n_val (nd h n)) ->
-  n_val (nd (fst (cd_insert h n off s)) n) = firstn off (n_val (nd h n)) ++ s ++ skipn off (n_val (nd h n)).
+Lemma cd_insert_value : forall h n off s, (n < length h)%nat -> n_ro (nd h n) = false -> off <= dlen h n ->
+  n_val (nd (fst (cd_insert h n off s)) n) =
+  firstn (N.to_nat off) (n_val (nd h n)) ++ s ++ skipn (N.to_nat off) (n_val (nd h n)).
 Proof.
-  intros h n off s Hn R L. unfold cd_insert. rewrite R. destruct (Nat.ltb_spec (length (n_val (nd h n))) off); [lia|].
+  intros h n off s Hn R L. unfold cd_insert. rewrite R. cbv zeta. destruct (N.ltb_spec (dlen h n) off); [lia|].
   cbn [fst]. rewrite nd_upd_eq by assumption. reflexivity.
 Qed.
 
@@ -53,7 +73,38 @@ Proof.
   intros [H|[H|[H|[H|H]]]]; revert H.
   - destruct (n_ro _); [intros [= <- _]; reflexivity|discriminate].
   - destruct (n_ro _); [intros [= <- _]; reflexivity|discriminate].
-  - destruct (n_ro _); [intros [= <- _]; reflexivity|]. destruct (_ <? _); [intros [= <- _]; reflexivity|discriminate].
-  - destruct (n_ro _); [intros [= <- _]; reflexivity|]. destruct (_ <? _); [intros [= <- _]; reflexivity|discriminate].
-  - destruct (_ <? _); [intros [= <- _]; reflexivity|intros [= <- _]; reflexivity].
+  - destruct (n_ro _); [intros [= <- _]; reflexivity|]. destruct (N.ltb _ _); [intros [= <- _]; reflexivity|discriminate].
+  - destruct (n_ro _); [intros [= <- _]; reflexivity|]. destruct (N.ltb _ _); [intros [= <- _]; reflexivity|discriminate].
+  - destruct (N.ltb _ _); [intros [= <- _]; reflexivity|intros [= <- _]; reflexivity].
+Qed.
+
+(** insertBefore / appendChild with a newChild that is not a DocumentFragment: every exception is raised before the
+    first link is touched (the only mutating call that can throw, oldparent->removeChild, throws before it mutates) *)
+Lemma pins_error_unchanged : forall insf cf h this new ref h' e,
+  n_ty (nd h new) <> TFrag -> pins_body insf cf h this new ref = (h', RErr e) -> h' = h.
+Proof.
+  intros insf cf h this new ref h' e T. unfold pins_body.
+  destruct (n_ro _); [intros [= <- _]; reflexivity|].
+  destruct (negb (oid_eqb _ _)); [intros [= <- _]; reflexivity|].
+  destruct (if fix_self cf then _ else _); [intros [= <- _]; reflexivity|].
+  destruct (match ref with Some r0 => _ | None => false end); [intros [= <- _]; reflexivity|].
+  destruct (oid_eqb ref (Some new)); [discriminate|].
+  destruct (ntype_eqb (n_ty (nd h new)) TFrag) eqn:EF.
+  { destruct (n_ty (nd h new)); try discriminate EF. contradiction T; reflexivity. }
+  destruct (negb (kid_ok h this new)); [intros [= <- _]; reflexivity|].
+  destruct (parent h new) as [op|]; [|discriminate].
+  destruct (v_remove h op new) as [h1 r1] eqn:E1.
+  destruct r1; cbn [is_err]; try discriminate.
+  intros [= <- <-]. eapply v_remove_error_unchanged; exact E1.
+Qed.
+
+Lemma ins_error_unchanged : forall fuel cf h this new ref h' e,
+  n_ty (nd h new) <> TFrag -> ins fuel cf h this new ref = (h', RErr e) -> h' = h.
+Proof.
+  intros [|fuel] cf h this new ref h' e T; cbn [ins]; [intros [= <- _]; reflexivity|].
+  destruct (n_ty (nd h this)); try (intros [= <- _]; reflexivity); try (apply pins_error_unchanged; assumption).
+  destruct (_ && _); [intros [= <- _]; reflexivity|].
+  destruct (pins_body _ cf h this new ref) as [h1 r1] eqn:E1.
+  destruct r1; cbn [is_err]; try (destruct (ntype_eqb _ _); discriminate).
+  intros [= <- <-]. eapply pins_error_unchanged; eassumption.
 Qed.
